@@ -2150,6 +2150,10 @@ func (self *LockDB) Lock(serverProtocol ServerProtocol, command *protocol.LockCo
 				lockManager.locked++
 				currentLock.locked++
 				currentLockCommand := currentLock.command
+				// a re-entrant re-lock is answered at once; its command becomes the hold's
+				// command, so the require-ack flag must not travel with it into the log record
+				// (the acknowledgement of that record would be taken for a pending grant)
+				command.TimeoutFlag &^= protocol.TIMEOUT_FLAG_REQUIRE_ACKED
 				if command.Flag&protocol.LOCK_FLAG_CONTAINS_DATA != 0 {
 					lockManager.ProcessLockData(command, currentLock, false)
 				}
